@@ -103,10 +103,43 @@ static void run_qd(uint64_t seed, uint64_t count) {
 		pr(OP_eq, guarded([&] { return std::string(b01(x == y)); }));
 	}
 }
+// C03: construction and assignment from native values.  The target object first holds junk in every component, so that an
+// assignment which forgets to clear a component is visible.
+template <class T, unsigned K>
+static void run_from(uint64_t seed, uint64_t count, int fam) {
+	Rng g(seed * 13 + 5);
+	auto comps = [&](const T& z) { std::string s; for (unsigned i = 0; i < K; ++i) { s += (i ? "," : ""); if constexpr (K == 2) s += hd(i == 0 ? z.high() : z.low()); else s += hd(z[i]); } return s; };
+	auto junk = [&]() { if constexpr (K == 2) return T(1.0, 1e-20); else return T(1.0, 1e-20, 1e-40, 1e-60); };
+	auto emit = [&](int op, const std::string& args, const std::string& r) { printf("%d 0 %d %s %s\n", fam, op, args.c_str(), r.c_str()); };
+	for (uint64_t i = 0; i < count; ++i) {
+		// 64-bit integers: around 2^53, 2^63, all ones, sparse, random
+		uint64_t u;
+		switch (g.below(8)) {
+		case 0: u = (1ull << (52 + g.below(12))) + g.below(5) - 2; break;
+		case 1: u = ~0ull - g.below(4); break;
+		case 2: u = (1ull << 63) + g.below(5) - 2; break;
+		case 3: u = g.next() >> g.below(64); break;
+		case 4: u = (g.next() | 1ull) | (1ull << 63); break;
+		case 5: u = (1ull << g.below(64)) | (1ull << g.below(64)) | 1ull; break;
+		default: u = g.next(); break;
+		}
+		{ T z = junk(); z = (long long)u; emit(OP_from_int, "40," + hex64(u), guarded([&] { return comps(z); })); }
+		{ T z = junk(); z = (unsigned long long)u; emit(OP_from_uint, "40," + hex64(u), guarded([&] { return comps(z); })); }
+		{ T z((long long)u); emit(OP_from_int, "40," + hex64(u), guarded([&] { return comps(z); })); }
+		{ T z((unsigned long long)u); emit(OP_from_uint, "40," + hex64(u), guarded([&] { return comps(z); })); }
+		{ int v = (int)(uint32_t)u; T z = junk(); z = v; emit(OP_from_int, "20," + hex64((uint32_t)v), guarded([&] { return comps(z); })); }
+		double d = std::ldexp(gen_sig(g), (int)g.below(600) - 300); float f = (float)std::ldexp(gen_sig(g), (int)g.below(200) - 100);
+		{ T z = junk(); z = d; emit(OP_from_f64, hex64(f64bits(d)), guarded([&] { return comps(z); })); }
+		{ T z = junk(); z = f; emit(OP_from_f32, hex64(f32bits(f)), guarded([&] { return comps(z); })); }
+		{ T z(d); emit(OP_from_f64, hex64(f64bits(d)), guarded([&] { return comps(z); })); }
+	}
+}
+
 int main(int argc, char** argv) {
 	Args A = parse_args(argc, argv);
 	install_signal_guards(); std::cerr.tie(nullptr);
 	g_readback = (A.mode == "readback");
+	if (A.mode == "from") { if (A.shard % 2 == 0) run_from<dd, 2>(A.seed + A.shard, A.count, FAM_dd); else run_from<qd, 4>(A.seed + A.shard, A.count, FAM_qd); return 0; }
 	if (A.shard % 2 == 0) run_dd(A.seed + A.shard, A.count); else run_qd(A.seed + A.shard, A.count / 2 + 1);
 	return 0;
 }
